@@ -55,13 +55,21 @@ def build_coq(targets=None, timeout=1500):
             stub = '(* translation FAILED: ' + out2.strip().splitlines()[-1].replace('*)', '* )')[:300] + ' *)\n'
             if not os.path.exists(src_v) or open(src_v).read() != stub:
                 open(src_v, 'w').write(stub)
+        # T1c: the control skeletons of the four on_merge_impl methods, translated over the model's primitives (fail-closed likewise)
+        srcm_v = os.path.join(COQ, 'Gen', 'SrcMerge.v')
+        rc3, out3 = sh([PY, os.path.join(VERIF, 'tools', 'translate_merge.py'), srcm_v], timeout=120)
+        srcm_ok = rc3 == 0
+        if not srcm_ok:
+            stub = '(* translation FAILED: ' + (out3.strip().splitlines() or ['?'])[-1].replace('*)', '* )')[:300] + ' *)\n'
+            if not os.path.exists(srcm_v) or open(srcm_v).read() != stub:
+                open(srcm_v, 'w').write(stub)
         if not os.path.exists(os.path.join(COQ, 'Makefile')):
             sh('coq_makefile -f _CoqProject -o Makefile', cwd=COQ)
         cmd = f'timeout {timeout} make -k -j{NCPU} ' + (' '.join(targets) if targets else '')
         rc, out = sh(cmd, cwd=COQ, timeout=timeout + 30)
     failed = re.findall(r'\[Makefile[^\]]*: ([^\]]+\.vo)\] Error', out)
     errs = re.findall(r'File "\./([^"]+)", line (\d+)[^\n]*\n(Error:[^\n]*(?:\n[^\n]+){0,6})', out)
-    return dict(ok=(rc == 0 and facts_ok and src_ok), facts_ok=facts_ok, facts_log=facts_log, src_ok=src_ok, src_log=out2, log=out[-6000:], failed=sorted(set(failed)),
+    return dict(ok=(rc == 0 and facts_ok and src_ok and srcm_ok), facts_ok=facts_ok, facts_log=facts_log, src_ok=src_ok, src_log=out2, srcm_ok=srcm_ok, srcm_log=out3, log=out[-6000:], failed=sorted(set(failed)),
                 errors=[dict(file=f, line=int(l), msg=m[:600]) for f, l, m in errs], wall_s=time.time() - t0)
 
 
